@@ -37,3 +37,25 @@ Example C06_example_events :
   nest [] (fst (scan false (of_string "{""a"":[1"%string))) =
     Some [(ArrayItemBegin, 6%N); (ArrayBegin, 5%N); (ObjectValueBegin, 5%N); (ObjectBegin, 0%N)].
 Proof. vm_compute. repeat split; reflexivity. Qed.
+
+(* The event types of the three scanner models are the library's (translated from
+   internal/lexeme/lex_event_type.go by tools/tabx on every run): numeric codes and IsOpening. *)
+From JS Require Json.LexemeTie.
+Theorem C06_json_event_codes_match_source : forall e,
+  LexemeTie.code_of (LexemeTie.scanner_name e) LexemeTables.event_codes = Some (Scanner.ev_code e).
+Proof. exact LexemeTie.json_event_codes. Qed.
+Print Assumptions C06_json_event_codes_match_source.
+Theorem C06_enum_event_codes_match_source : forall e,
+  LexemeTie.code_of (LexemeTie.enumscanner_name e) LexemeTables.event_codes = Some (EnumScanner.ev_code e).
+Proof. exact LexemeTie.enum_event_codes. Qed.
+Print Assumptions C06_enum_event_codes_match_source.
+Theorem C06_schema_event_codes_match_source : forall e,
+  LexemeTie.code_of (LexemeTie.schemascanner_name e) LexemeTables.event_codes = Some (N.to_nat (SchemaScanner.ev_code e)).
+Proof. exact LexemeTie.schema_event_codes. Qed.
+Print Assumptions C06_schema_event_codes_match_source.
+Theorem C06_is_opening_matches_source :
+  (forall e, Scanner.is_opening e = LexemeTie.opens (LexemeTie.scanner_name e)) /\
+  (forall e, EnumScanner.is_opening e = LexemeTie.opens (LexemeTie.enumscanner_name e)) /\
+  (forall e, SchemaScanner.is_opening e = LexemeTie.opens (LexemeTie.schemascanner_name e)).
+Proof. exact (conj LexemeTie.json_is_opening (conj LexemeTie.enum_is_opening LexemeTie.schema_is_opening)). Qed.
+Print Assumptions C06_is_opening_matches_source.
